@@ -1725,3 +1725,128 @@ func factRel(f Fact, isA, isB func(ssa.Value) bool) string {
 }
 
 func isValue(v ssa.Value) func(ssa.Value) bool { return func(x ssa.Value) bool { return x == v } }
+
+// flagAfterFirst decides, for a call `target` inside fn that takes a boolean flag, whether every
+// execution of the call AFTER the first one in the same invocation of fn sees the flag true.
+// The flag is an SSA phi web (a local bool variable): the function is abstracted to the boolean
+// program over that web - every other condition is non-deterministic - and all reachable
+// (sent-before?, values of the web) states are explored exactly. Returns "" when it holds, or a
+// description of the offending edge.
+func flagAfterFirst(fn *ssa.Function, target ssa.Instruction, flag ssa.Value) string {
+	flag = unwrapLoadAlloc(flag)
+	var web []*ssa.Phi
+	idx := map[*ssa.Phi]int{}
+	var add func(v ssa.Value)
+	add = func(v ssa.Value) {
+		p, ok := v.(*ssa.Phi)
+		if !ok {
+			return
+		}
+		if _, seen := idx[p]; seen {
+			return
+		}
+		idx[p] = len(web)
+		web = append(web, p)
+		for _, e := range p.Edges {
+			add(e)
+		}
+	}
+	add(flag)
+	if len(web) > 12 {
+		return "flag variable too complex"
+	}
+	// value of v under state s: 0 false, 1 true, 2 unknown
+	val := func(v ssa.Value, s uint32) int {
+		if isBoolConstVal(v, true) {
+			return 1
+		}
+		if isBoolConstVal(v, false) {
+			return 0
+		}
+		if p, ok := v.(*ssa.Phi); ok {
+			if i, ok := idx[p]; ok {
+				return int((s >> (1 + uint(i))) & 1)
+			}
+		}
+		return 2
+	}
+	type key struct {
+		b *ssa.BasicBlock
+		s uint32
+	}
+	seen := map[key]bool{}
+	type item struct {
+		pred, b *ssa.BasicBlock
+		s       uint32
+	}
+	work := []item{{nil, fn.Blocks[0], 0}}
+	bad := ""
+	for len(work) > 0 && bad == "" {
+		it := work[len(work)-1]
+		work = work[:len(work)-1]
+		// phi assignment on entry (simultaneous), forking on unknown inputs
+		states := []uint32{it.s}
+		if it.pred != nil {
+			pi := -1
+			for i, p := range it.b.Preds {
+				if p == it.pred {
+					pi = i
+				}
+			}
+			for _, in := range it.b.Instrs {
+				p, ok := in.(*ssa.Phi)
+				if !ok {
+					break
+				}
+				i, inWeb := idx[p]
+				if !inWeb || pi < 0 {
+					continue
+				}
+				var next []uint32
+				for _, s := range states {
+					switch val(p.Edges[pi], it.s) {
+					case 0:
+						next = append(next, s&^(1<<(1+uint(i))))
+					case 1:
+						next = append(next, s|(1<<(1+uint(i))))
+					default:
+						next = append(next, s&^(1<<(1+uint(i))), s|(1<<(1+uint(i))))
+					}
+				}
+				states = next
+			}
+		}
+		for _, s := range states {
+			if seen[key{it.b, s}] {
+				continue
+			}
+			seen[key{it.b, s}] = true
+			cur := s
+			for _, in := range it.b.Instrs {
+				if in == target {
+					if cur&1 == 1 && val(flag, cur) != 1 {
+						bad = "the call can be reached a second time with the flag still false"
+					}
+					cur |= 1
+				}
+			}
+			last := it.b.Instrs[len(it.b.Instrs)-1]
+			if iff, ok := last.(*ssa.If); ok {
+				f := normFact(Fact{iff.Cond, true})
+				switch v := val(f.Cond, cur); {
+				case v == 2:
+					work = append(work, item{it.b, it.b.Succs[0], cur}, item{it.b, it.b.Succs[1], cur})
+				case (v == 1) == f.Val:
+					work = append(work, item{it.b, it.b.Succs[0], cur})
+				default:
+					work = append(work, item{it.b, it.b.Succs[1], cur})
+				}
+				continue
+			}
+			for _, sx := range it.b.Succs {
+				work = append(work, item{it.b, sx, cur})
+			}
+		}
+	}
+	return bad
+}
